@@ -131,8 +131,15 @@ def decide(ctx, obs, oracle: str, **kw):
     return n
 
 
-def run(ctx, oracle: str, focus=(), names=None, **kw):
-    js = jobs(ctx, names=names, focus=focus, record=oracle == "calls", snapshots=oracle == "history")
+def run(ctx, oracle: str, focus=(), names=None, info=None, **kw):
+    from . import hot
+    changed = hot.changed_sources(info) if info is not None else []
+    js = jobs(ctx, names=names, focus=list(focus) + changed, record=oracle == "calls", snapshots=oracle == "history")
+    # the source-directed campaign: optimizers whose package changed since the pinned tree (thorough: everybody, once)
+    hot_names = changed if ctx.quick else sorted(set(search.all_names()) | set(changed))
+    if oracle == "monotone": hot_names = [n for n in hot_names if n in kw["elitist"]]
+    js += hot.jobs(ctx, hot_names, reps=(4 if ctx.quick else 1), record=oracle == "calls", snapshots=oracle == "history")
+    if changed: ctx.coverage["changed_optimizer_sources"] = changed
     obs = search.run_jobs(js)
     n = decide(ctx, obs, oracle, **kw)
     fams = {}
